@@ -208,7 +208,7 @@ def run_tlc(module_path, cfg_path=None, workers=1, timeout=1800, simulate=None,
     d = os.path.dirname(os.path.abspath(module_path))
     meta = tempfile.mkdtemp(prefix="tlcmeta_", dir=d)
     cmd = [
-        "java", "-XX:+UseParallelGC", "-Xss64m", f"-DTLA-Library={SPEC}",
+        "java", "-XX:+UseParallelGC", f"-XX:ParallelGCThreads={max(2, min(workers, 8))}", "-Xss64m", f"-DTLA-Library={SPEC}",
         "-cp", JAR, "tlc2.TLC",
         "-workers", str(workers), "-metadir", meta, "-noGenerateSpecTE",
     ]
